@@ -238,7 +238,7 @@ def lay_out(draw, prog):
 
 FAULTS = ["mismatched_weights", "bad_csv_cell", "unknown_command", "duplicate_result", "missing_required", "undeclared_param", "wrong_kind_number",
           "wrong_kind_list", "dangling_ref", "fuzzy_mismatch", "non_data_producer", "missing_file", "relative_path",
-          "invalid_direction", "invalid_truest", "invalid_number_to_consider", "duplicate_raw_values"]
+          "invalid_direction", "invalid_truest", "invalid_number_to_consider", "duplicate_raw_values", "cycle"]
 
 NUMBER_PARAMS = {"TrueThreshold", "FalseThreshold", "Threshold", "StartVal", "EndVal", "DefaultNormalValue",
                  "DefaultFuzzyValue", "TrueThresholdZScore", "FalseThresholdZScore", "NumberToConsider", "MissingVal"}
@@ -329,6 +329,47 @@ def inject(model, prog, fault, pick):
         else:
             arg["value"] = to_value(new, ref=True)
         return classes, ("arg", i, j), True
+    if fault == "cycle":
+        # one reference is redirected to the command itself or to one of its consumers: the recursion reported when
+        # the model is run is located on a command of that cycle, wherever its (innocent) consumers stand in the file
+        ref_args = ("InFieldName", "A", "B", "InFieldNames")
+
+        def refs(c):
+            out = []
+            for a in c["args"]:
+                if a["name"] in ref_args and c["command"] != "EEMSRead":
+                    v = a["value"]
+                    out.extend([x["v"] for x in v["items"]] if v["k"] == "list" else [v["v"]])
+            return out
+
+        cands = [(i, j) for i, c in enumerate(cmds) for j, a in enumerate(c["args"])
+                 if a["name"] in ref_args and c["command"] != "EEMSRead" and (a["value"]["k"] != "list" or a["value"]["items"])]
+        t = choose(cands)
+        if not t:
+            return None
+        i, j = t
+        index = {c["result"]: k for k, c in enumerate(cmds)}
+
+        def reach(a):
+            seen, todo = set(), [a]
+            while todo:
+                k = todo.pop()
+                for r in refs(cmds[k]):
+                    if r in index and index[r] not in seen:
+                        seen.add(index[r])
+                        todo.append(index[r])
+            return seen
+
+        consumers = [k for k in range(len(cmds)) if i in reach(k) and cmds[k]["command"] != "EEMSRead"]
+        same_kind = [k for k in consumers if (cmds[k]["command"] in R.FUZZY) == (cmds[i]["command"] in R.FUZZY)]
+        target = (same_kind or consumers or [i])[(pick // 7) % len(same_kind or consumers or [i])] if pick % 3 else i
+        arg = cmds[i]["args"][j]
+        if arg["value"]["k"] == "list":
+            arg["value"]["items"][pick % len(arg["value"]["items"])] = to_value(cmds[target]["result"], ref=True)
+        else:
+            arg["value"] = to_value(cmds[target]["result"], ref=True)
+        members = sorted(k for k in range(len(cmds)) if k in reach(k))
+        return ["RecursiveModelStructure"], ("cycle", i, members), True
     if fault in ("missing_file", "relative_path"):
         cands = [(i, j) for i, c in enumerate(cmds) for j, a in enumerate(c["args"]) if a["name"] == "InFileName"]
         i, j = choose(cands)
@@ -428,7 +469,11 @@ def check_fault(case, rec):
     text, lm = RD.render(prog)
     classes, loc, use_wd = case["classes"], tuple(case["loc"]), case["working_dir"]
     src_lines = re.split(r"\r\n|\r|\n", text)
-    if loc[0] == "cmd":
+    cycle_lines = None
+    if loc[0] == "cycle":
+        cycle_lines = sorted(lm[("cmd", k)] for k in loc[2])
+        span = (cycle_lines[0], cycle_lines[-1])
+    elif loc[0] == "cmd":
         span = (lm[("cmd", loc[1])], lm[("cmd", loc[1])])
     else:
         span = (lm[("arg", loc[1], loc[2])], lm[("val", loc[1], loc[2], "end")])
@@ -463,7 +508,13 @@ def check_fault(case, rec):
         line = getattr(err, "lineno", None)
         rec.label("fault:" + case["fault"])
         kind = type(err).__name__
-        if loc[0] == "exec":
+        if loc[0] == "cycle":
+            rec.label("cycle:%s" % ("consumer_first" if any(lm[("cmd", k)] < cycle_lines[0] for k in range(len(prog["commands"]))
+                                                          if prog["commands"][k]["command"] != "EEMSRead") else "cycle_first"))
+            if line is not None and line not in cycle_lines:
+                fails.append(Failure("%s|wrong_line:not_on_the_cycle|%s" % (kind, hist),
+                                     "line %r; the commands of the cycle start on lines %r\n%s" % (line, cycle_lines, text)))
+        elif loc[0] == "exec":
             if line is not None and not (cmd_span[0] <= line <= cmd_span[1]):
                 fails.append(Failure("%s|wrong_line|%s" % (kind, hist), "line %r outside the command span %r\n%s" % (line, cmd_span, text)))
             elif line is not None and case["fault"] in ("invalid_direction", "invalid_truest", "invalid_number_to_consider", "duplicate_raw_values"):
@@ -501,7 +552,7 @@ def check_fault(case, rec):
                 stderr = res.output
             marked = [l[4:] for l in stderr.split("\n") if l.startswith("--> ")]
             want_span = cmd_span if loc[0] == "exec" else span
-            ok_lines = [src_lines[k - 1] for k in range(want_span[0], want_span[1] + 1)]
+            ok_lines = [src_lines[k - 1] for k in (cycle_lines or range(want_span[0], want_span[1] + 1))]
             if res.exit_code == 0:
                 fails.append(Failure("%s|cli_exit_zero|%s" % (kind, hist), stderr[:300]))
             elif not marked:
@@ -515,7 +566,7 @@ def check_fault(case, rec):
 
 @st.composite
 def fault_cases(draw):
-    fault = draw(st.sampled_from(FAULTS))
+    fault = draw(st.sampled_from(FAULTS + ["cycle", "cycle"]))
     pools = {
         "invalid_direction": ["CvtToBinary", "CvtToFuzzy", "Sum"],
         "invalid_truest": ["CvtToFuzzy", "FuzzySelectedUnion", "CvtToBinary"],
